@@ -72,7 +72,7 @@ func genB() *rapid.Generator[Case] {
 			case "cbrow":
 				// a row of its own with callbacks of its own: made, given 1..3 failing callbacks in one slot, filled
 				// (each Add is one round of that slot), perhaps noted an error on, and only then attached
-				mk := rapid.SampledFrom([]string{"newrow", "newrowsized", "newrowcap"}).Draw(t, "cbrow-make")
+				mk := rapid.SampledFrom([]string{"newrow", "newrowsized", "newrowcap", "newrowzero"}).Draw(t, "cbrow-make")
 				b.Steps = append(b.Steps, StepB{K: "op", Op: &gen.Op{K: mk}})
 				b.Steps = append(b.Steps, StepB{K: "reg", Owner: "row", Ref: -1, When: rapid.SampledFrom([]int{0, 0, 0, 1, 3}).Draw(t, "cbrow-when"), Target: 1, N: rapid.IntRange(1, 3).Draw(t, "cbrow-n")})
 				if rapid.IntRange(0, 3).Draw(t, "cbrow-err-first") == 0 {
@@ -84,7 +84,7 @@ func genB() *rapid.Generator[Case] {
 				b.Steps = append(b.Steps, StepB{K: "op", Op: &gen.Op{K: "addrow", Ref: -1}})
 				continue
 			case "op":
-				op := gen.Op{K: rapid.SampledFrom([]string{"hdr", "rowitems", "rowitems", "sep", "appendnew", "newrow", "newrowsized", "rowadd", "rowadd", "rowadd", "addrow", "addrow", "zerorow"}).Draw(t, "kind")}
+				op := gen.Op{K: rapid.SampledFrom([]string{"hdr", "rowitems", "rowitems", "sep", "appendnew", "newrow", "newrowsized", "newrowzero", "rowadd", "rowadd", "rowadd", "addrow", "addrow", "zerorow"}).Draw(t, "kind")}
 				switch op.K {
 				case "hdr", "rowitems":
 					k := rapid.IntRange(0, 3).Draw(t, "cells")
